@@ -137,6 +137,54 @@ def judge_array(acc, fmt, rounding, overflow, ds, part, check_flags=True):
     acc.sample(dict(case, vals=case['vals'][:3]))
 
 
+def judge_layout(acc, fmt, rounding, overflow, ds, part):
+    """the same values as a 2-d float64 input in C, Fortran, transposed and strided layouts, by constructor and set_val:
+    element (i, j) of the object must be the quantization of element (i, j) of the input"""
+    n = (len(ds) // 6) * 6
+    if n < 6:
+        return
+    ds = ds[:n]
+    vals = np.array([dy_float(d) for d in ds], dtype=np.float64)
+    exp_flat = [quantize(d, fmt, rounding, overflow)[0] for d in ds]
+    for layout in ('F', 'T', 'strided'):
+        if layout == 'F':
+            arr = np.asfortranarray(vals.reshape(n // 3, 3))
+            idx = np.arange(n).reshape(n // 3, 3)
+        elif layout == 'T':
+            arr = vals.reshape(3, n // 3).T
+            idx = np.arange(n).reshape(3, n // 3).T
+        else:
+            big = np.zeros((n // 3, 6))
+            big[:, ::2] = vals.reshape(n // 3, 3)
+            arr = big[:, ::2]
+            idx = np.arange(n).reshape(n // 3, 3)
+        exp = [[exp_flat[k] for k in row] for row in idx.tolist()]
+        for route in ('ctor', 'set_val', 'setitem'):
+            case = {'part': part, 'layout': layout, 'fmt': list(fmt), 'mode': [rounding, overflow], 'vals': [list(d) for d in ds], 'route': route}
+            acc.evaluations += n
+            acc.transitions += 1
+            acc.dim('carrier', 'farr2d_' + layout, n)
+            try:
+                if route == 'ctor':
+                    x = mk(arr, fmt, rounding, overflow)
+                else:
+                    x = mk(np.zeros(arr.shape), fmt, rounding, overflow)
+                    if route == 'set_val':
+                        x.set_val(arr)
+                    else:
+                        x[...] = arr
+                got = np.asarray(x.val).tolist()
+                got = [[int(c) for c in row] for row in got]
+            except Exception as e:
+                acc.violation('exception', case, 'fmt=%s %s layout store by %s raised %r' % (fmt.dtype, layout, route, e), {'part': part, 'layout': layout})
+                continue
+            if got != exp:
+                acc.violation('layout', case, 'fmt=%s mode=%s/%s 2-d input in %s layout by %s: codes %s, expected %s'
+                              % (fmt.dtype, rounding, overflow, layout, route, str(got)[:120], str(exp)[:120]), {'part': part, 'layout': layout, 'route': route})
+            else:
+                acc.outcome('layout_ok')
+
+
 def _is_tie(d, fmt):
     num, s = d
     s2 = s - fmt.n_frac if fmt.n_frac >= 0 else s - fmt.n_frac
@@ -212,6 +260,9 @@ def run_shard(sh):
             ds = [qval(k, fmt) for k in al.quarter_sweep(fmt, 1)]
             for (r, o) in MODES:
                 judge_array(acc, fmt, r, o, ds, 'A')
+            if nf in (-1, 0, nw // 2, nw + 1):
+                judge_layout(acc, fmt, 'around', 'wrap', ds, 'A')
+                judge_layout(acc, fmt, 'floor', 'saturate', ds, 'A')
     elif part == 'A2':
         combos = dev_combos(sh['dev'])
         for nf in sh['nfs']:
@@ -350,6 +401,9 @@ def replay(case):
     fmt = Fmt(*case['fmt'])
     r, o = case['mode']
     ds = [tuple(d) for d in case.get('vals', [])]
+    if 'layout' in case:
+        judge_layout(acc, fmt, r, o, ds, case['part'])
+        return [v for v in acc.violations if v['case'].get('layout') == case['layout'] and v['case'].get('route') == case['route']]
     if case['part'] == 'D1':
         q1, q2 = quantize(ds[0], fmt, r, o), quantize(ds[1], fmt, r, o)
         try:
